@@ -42,7 +42,7 @@ def run_impl(case):
 
     class Scripted(BaseSampler):
         def __init__(self):
-            super().__init__(case["bs"], max_deduplication_passes=case["budget"])
+            super().__init__(case["bs"], max_deduplication_passes=case.get("ctor_budget", case["budget"]))
             self.reqs, self.k, self.flag_log, self.snap = [], 0, [], []
 
         def sample_batch(self, batch_size, search_space, existing_points, existing_losses):
@@ -59,6 +59,10 @@ def run_impl(case):
             return r
 
     smp = Scripted()
+    if "ctor_budget" in case:
+        # the public attribute is reassigned after construction (the only way to choose it for samplers whose constructor
+        # fixes it, and the natural way to tune a restored sampler): the value in force is the assigned one
+        smp.max_deduplication_passes = case["budget"]
     hist = np.array([[val(c) for c in r] for r in case["hist"]], dtype=float).reshape(len(case["hist"]), dims)
     hist0 = hist.copy()
     if case.get("prior"):
@@ -114,6 +118,8 @@ def plan_case(rng, dims, nalpha, bs, budget, nhist):
         hist.append(rng.choice(hist))  # history with its own repeats
     case = {"dims": dims, "alphabet": alpha, "bs": bs, "budget": budget, "hist": [list(h) for h in hist], "script": [],
             "negzero": [bool(rng.below(2)) for _ in range(7)] if rng.below(2) else None}
+    if rng.below(4) == 0:
+        case["ctor_budget"] = rng.choice([b for b in range(7) if b != budget])
 
     def draw(cur):
         k = rng.below(10)
